@@ -505,7 +505,7 @@ func runE2E(c *Ctx) {
 		p.calls = append(p.calls, e2eCall{-1})
 		run(p)
 	}
-	// the two writer-failure witnesses (Rv.C29.writer_failure_not_clean_or_drained_fails / writer_failure_leaves_chunks)
+	// the two writer-failure witnesses (Rv.C29.unrepaired_overdiscard_witness / unrepaired_chunks_left_witness; repaired by /repo a376be4 — kept as regression episodes)
 	{
 		p := mk(blob("0123456789"), blob("XX+EVIL\r\n+LEFT"), blob("third"))
 		p.calls[0].budget = 3
@@ -514,7 +514,7 @@ func runE2E(c *Ctx) {
 		p.calls[0].budget = 1
 		run(p)
 		p = mk(blob("0123456789"))
-		p.calls[0].budget = 3 // single DoStream: nothing follows, the over-long Discard runs into the deadline
+		p.calls[0].budget = 3 // single DoStream: nothing follows (before a376be4 the over-long Discard ran into the deadline)
 		run(p)
 	}
 	// ---- random episodes
